@@ -123,3 +123,38 @@ Proof.
   split; [exact ex_core_ok|]. split; [intros [|e]; reflexivity|].
   split; [repeat constructor; cbn; discriminate|]. split; [vm_compute; repeat constructor | vm_compute; reflexivity].
 Qed.
+
+(* backmp11, same statement with its own reading of start(): `sp_qop_mp11` is `sp_qop` except that start() of a machine
+   without history of its own empties the pending list instead of dispatching it (finding F28, refuted below) and that
+   the entry behaviour of a machine started again reads the ids it was stopped in.  For every core definition whose
+   outermost machine has no history, every history in which start() and stop() alternate and events are sent while
+   the machine is started (enqueue_event at any time), every guard valuation and every backmp11 configuration: every
+   occurrence stored while the machine is started is dispatched exactly once, in storage order, as a complete step, at
+   the end of the next process_event or in the next process_event_pool.  The bound on the number of stored events
+   (default_fuel) keeps every occurrence far from a whole turn of the 16-bit sequence counter (finding F6). *)
+Theorem C04_mp11_stored_events_exactly_once_in_order : forall cf md l,
+  c_be cf = Mp11 -> flat_events md -> core (md_root md) -> m_hist (md_root md) = HNone -> mp11_entry_throw_resets = true ->
+  qbracketed false l -> 2 * count_enq l + depth (md_root md) + 3 <= default_fuel ->
+  Forall2 step_ok (sp_qrun_mp11 (c_pol cf) (md_root md) (abs (init_rnode (md_root md)), []) l) (run cf md l).
+Proof. exact mp11_queue_is_spec. Qed.
+Print Assumptions C04_mp11_stored_events_exactly_once_in_order.
+
+Example C04_mp11_stored_events_example :
+  core (md_root ex_core_md) /\ flat_events ex_core_md /\ m_hist (md_root ex_core_md) = HNone /\ qbracketed false ex_queue_ops_mp11 /\
+  2 * count_enq ex_queue_ops_mp11 + depth (md_root ex_core_md) + 3 <= default_fuel /\
+  map (fun st => length (fst st)) (run (Cfg Mp11 false 0 false) ex_core_md ex_queue_ops_mp11) = [0; 2; 0; 0; 4; 0; 1; 2; 0; 2; 0; 6].
+Proof.
+  split; [exact ex_core_ok|]. split; [intros [|e]; reflexivity|]. split; [reflexivity|].
+  split; [cbn; repeat split; discriminate|]. split; [vm_compute; repeat constructor | vm_compute; reflexivity].
+Qed.
+
+(* the full statement "none lost" is false of backmp11 (finding F28, confirmed on the library: replays/F28): an event
+   stored while the machine is stopped is never dispatched - back dispatches it at the end of start() *)
+Theorem C04_mp11_start_drops_stored_events_refuted :
+  let md := ex_core_md in
+  let l := [OEnqueue (Evt 4 1); OStart [1] []; ODrain [1] []] in
+  flat_map fst (run (Cfg Back false 0 false) md l) <> [] /\
+  filter (fun it => match it with Cb KAction _ _ _ _ _ => true | _ => false end) (flat_map fst (run (Cfg Back false 0 false) md l)) <> [] /\
+  filter (fun it => match it with Cb KAction _ _ _ _ _ => true | _ => false end) (flat_map fst (run (Cfg Mp11 false 0 false) md l)) = [].
+Proof. vm_compute. repeat split; discriminate. Qed.
+Print Assumptions C04_mp11_start_drops_stored_events_refuted.
